@@ -16,8 +16,7 @@ def extended_class(cls, variant=0):
                 """Read-only property of the second variant."""
                 return 11
 
-        Extended.__name__ = cls.__name__
-        return Extended
+        return _publish(Extended, cls, register=False)
 
     class Extended(cls):
         def extra_method(self, count: int, label: str = "x") -> str:
@@ -42,6 +41,9 @@ def extended_class(cls, variant=0):
         def undocumented(self, n: int = 1) -> int:
             return n
 
+        def lock(self) -> None:        # overrides an inherited public method WITHOUT repeating its docstring
+            return super().lock()
+
         @property
         def bare_prop(self) -> int:
             return 3
@@ -49,5 +51,22 @@ def extended_class(cls, variant=0):
         def _hidden(self) -> None:
             """Not public."""
 
-    Extended.__name__ = cls.__name__
-    return Extended
+    return _publish(Extended, cls, register=True)
+
+
+def _publish(ext, base, register):
+    """Give the class (and its functions) module-level qualified names, as a class written at the top
+    level of a module would have - inspect.getdoc() can only inherit docstrings for such classes.
+    Both variants get the SAME module and qualified name; only variant 0 is reachable under it."""
+    import types
+    ext.__name__ = base.__name__
+    ext.__qualname__ = "Extended"
+    ext.__module__ = __name__
+    for v in vars(ext).values():
+        fs = [v.fget, v.fset] if isinstance(v, property) else [v]
+        for f in fs:
+            if isinstance(f, types.FunctionType):
+                f.__qualname__ = "Extended." + f.__name__
+    if register:
+        globals()["Extended"] = ext
+    return ext
